@@ -745,7 +745,12 @@ impl RenderContext {
             return Err(Error::IncompleteFrame);
         }
 
-        let lf_frame_idx = self.lf_frame[header.lf_level as usize];
+        // An LF frame of level 4 has no slot (and cannot use an LF frame itself).
+        let lf_frame_idx = self
+            .lf_frame
+            .get(header.lf_level as usize)
+            .copied()
+            .unwrap_or(usize::MAX);
         if header.flags.use_lf_frame() {
             self.spawn_renderer(lf_frame_idx);
         }
